@@ -36,6 +36,10 @@ use crate::AssetCache;
 
 pub use watcher::FsWatcherBuilder;
 
+#[cfg(assets_manager_verif)]
+#[doc(hidden)]
+pub use watcher::verif;
+
 pub(crate) use records::{BorrowedDependency, Dependencies, Dependency};
 
 enum CacheMessage {
